@@ -415,3 +415,16 @@ class Heap:
 
     def env(self):
         return dict(self.ev.env)
+
+
+def getter_fold(prog, f, field, token=424242):
+    """what a getter answers when `field` holds `token` (every other member is absent): folded, so `return field_;`, a named
+    temporary, a conditional that ends up with the field are all the same getter. Returns the folded value (or a string why not)."""
+    from cpv.ceval import Evaluator, Unknown
+    ev = Evaluator(prog, f, env={field: token})
+    ev.inline = {g.qn for g in prog.functions.values() if g.cls == f.cls and g.kind not in ("ctor", "dtor")} if f.cls else set()
+    try:
+        ev.run_blocks(f.entry, max_steps=300)
+        return getattr(ev, "ret", None)
+    except Unknown as u:
+        return "unknown: %s" % u
